@@ -177,15 +177,23 @@ def layout_spec(draw, tier, bounds_emphasis=False, max_total=None, algorithms=No
     via = draw(st.sampled_from(["ctor", "ctor", "ctor", "set_options", "split"]))
     if via != "ctor" and opts:
         spec["via"] = via
+    if draw(st.integers(0, 6)) == 0:
+        spec["late_width"] = True
     return spec
 
 
 # ------------------------------------------------------------------ builder / observation
 
-def build_nodes(lbls):
+def build_nodes(lbls, late_width=False):
     from labella.node import Node
 
-    return [Node(p, w, data=i) for i, (p, w) in enumerate(lbls)]
+    if not late_width:
+        return [Node(p, w, data=i) for i, (p, w) in enumerate(lbls)]
+    # the width is assigned after construction, as the package's own Timeline does when it adds the padding
+    nodes = [Node(p, 1, data=i) for i, (p, w) in enumerate(lbls)]
+    for nd, (p, w) in zip(nodes, lbls):
+        nd.width = w
+    return nodes
 
 
 def run_layout(spec, ctx=None):
@@ -193,7 +201,7 @@ def run_layout(spec, ctx=None):
     from labella.force import Force
 
     def thunk():
-        nodes = build_nodes(spec["labels"])
+        nodes = build_nodes(spec["labels"], spec.get("late_width", False))
         f = make_force(spec)
         f.nodes(nodes)
         f.compute()
